@@ -304,3 +304,13 @@ PENDING.update({
 })
 CLAIMED.update(PENDING)
 HOOK_COMMITS = ["9c71e4cac", "fc646e211"]
+
+CLAIMED["C12"] = dict(
+    category="exploration",
+    technique="reference-model monitor over template programs with lattice declarations (user-defined monotone functors built by setup): one tuple per key, lattice value = Python least fixpoint joined per key; -j1 and -j4",
+    text=("Seven shapes (per-key max, two-key min, bit-set union, two lattice columns, bounded shortest distance with join = min, "
+          "reachable-set propagation, a rule that swaps two lattice columns) with random facts: the final relation holds at most one "
+          "tuple per assignment of the non-lattice attributes and its lattice value is the join of all values derivable for that key."),
+    note="interpreter only (functors through libffi); template programs; functors monotone and of finite height by construction",
+    design="6 C12",
+)
